@@ -31,7 +31,8 @@ impl Prop for C12 {
             patterns: (1, 4),
             lookahead_pct: gen::draw_lookahead_pct(rng),
             inputs: (1, 3),
-            input_len: (0, 30),
+            input_len: gen_input_len(rng, 30),
+            allow_empty_mode: true,
             ..Knobs::default()
         };
         let mut gw = gen::gen_world(rng, &k);
@@ -63,7 +64,7 @@ impl Prop for C12 {
     fn new_gen<'w>(&self, world: &'w World, rng: &mut Rng) -> Box<dyn Gen + 'w> {
         let clients = rng.range(2, 4);
         let policy = rng.below(4);
-        let len = rng.range(12, 80);
+        let len = gen_history_len(rng, 12, 80);
         let mut prio: Vec<usize> = (0..clients).collect();
         for i in (1..prio.len()).rev() {
             let j = rng.below(i + 1);
